@@ -85,6 +85,8 @@ def sym_context(I, domain='known', name='i'):
         E.assume(Or(*[And(i >= a, i <= b) for a, b in rs]))
     ctx = ConnectionContext.__new__(ConnectionContext)
     ctx.__dict__['protocol_version'] = SymProtocol(i)
+    if hasattr(I, 'tracked_frames'):
+        I.tracked_frames.append(('context', ctx, dict(vars(ctx))))
     return ctx, i
 
 
